@@ -32,6 +32,16 @@ for _pid, _t in [("C01", "edit script accounting (every child exactly once, list
              "evidence file; documents beyond the stated shapes, text longer than 2 characters, floats and XML are outside the claim.",
         ref="DESIGN.md §2, §3 " + _pid, technique="symbolic execution (z3 proxies) of the real diff engine, exhaustive path exploration within bounds")
 
+CHECKS["C17"] = dict(
+    text="Bounded symbolic execution of the real IterativeTighteningSearch, BoundedComparator/sort/min_bounded and make_distinct "
+         "on synthetic Bounded items whose tightening schedules are chains of nested intervals with *symbolic integer end points*: "
+         "z3 covers every value (ties, identical/touching intervals, already-definitive items, one-sided slow convergence) for "
+         "every schedule-length vector in the bound; oracles: minimum returned, final bound equals it, sorted order, pairwise "
+         "separation, termination, plus C04's monitor rules on the search object.",
+    note=TB + "Items are assumed to tighten soundly (the property's own precondition). intervaltree is replaced by a list model "
+         "with nondeterministic tie order, validated against the real package each run.",
+    ref="DESIGN.md §3 C17", technique="symbolic execution (z3 proxies) of the real search/bounds code, exhaustive path exploration within bounds")
+
 NOT_APPLICABLE = {
     "C12": "every route from leaf text to output and every oracle (loaders) is C code (json.dumps, csv, libyaml, plistlib, "
            "html.escape) behind which a symbolic engine must realise the input; nothing symbolic is left to decide (DESIGN §3 C12)",
